@@ -175,6 +175,45 @@ Theorem C02_sam_end_to_end :
 Proof. exact sam_end_to_end. Qed.
 Print Assumptions C02_sam_end_to_end.
 
+(* T6: typed INFO lookup.  A column of INFO texts, each a list of items followed by its delimiter (';' inside the
+   text, the byte after the field at its end).  If the key and '=' never equal a delimiter and no row holds the key
+   twice, the lookup returns, row by row, the text after "key=" of the item that starts with "key=", and the empty
+   text where there is none — whatever other keys the row holds (longer, shorter, sharing a prefix or suffix). *)
+Theorem C02_info_lookup_correct :
+  forall (key : list Z) (crows : list (list fcell)),
+    (forall c, In c crows -> crow_ok c /\ forall p, In p c -> forall z, In z (key ++ [61]) -> z <> snd p) ->
+    (forall c, In c crows -> len (filter (has_prefix key) (map fst c)) <= 1) ->
+    let rows := map flatten crows in
+    info_texts false (List.concat rows) key (item_table 0 rows) = Some (map (found key) crows).
+Proof. exact info_lookup_correct. Qed.
+Print Assumptions C02_info_lookup_correct.
+Theorem C02_info_string_col_correct :
+  forall (key : list Z) (lst : bool) (crows : list (list fcell)),
+    (forall c, In c crows -> crow_ok c /\ forall p, In p c -> forall z, In z (key ++ [61]) -> z <> snd p) ->
+    (forall c, In c crows -> len (filter (has_prefix key) (map fst c)) <= 1) ->
+    let rows := map flatten crows in
+    info_col (List.concat rows) (item_table 0 rows) (key, IString, lst) = Col (map (fun c => CBytes (found key c)) crows).
+Proof. exact info_string_col_correct. Qed.
+Print Assumptions C02_info_string_col_correct.
+Theorem C02_info_int_col_correct :
+  forall (key : list Z) (crows : list (list fcell)),
+    (forall c, In c crows -> crow_ok c /\ forall p, In p c -> forall z, In z (key ++ [61]) -> z <> snd p) ->
+    (forall c, In c crows -> len (filter (has_prefix key) (map fst c)) <= 1) ->
+    (forall c, In c crows -> found key c = [] \/ found key c = [46] \/ numeral (found key c) = true) ->
+    let rows := map flatten crows in
+    info_col (List.concat rows) (item_table 0 rows) (key, IInteger, false)
+    = match mapM (fun c => if (len (found key c) =? 0) || zlist_eqb (found key c) [46] then Some 0 else int_of_text (found key c)) crows with
+      | Some l => Col (map CInt l) | None => ColErr end.
+Proof. exact info_int_col_correct. Qed.
+Print Assumptions C02_info_int_col_correct.
+(* ... and that text is what the specification reads off the INFO text (items split on ';', "." = no item) *)
+Theorem C02_info_string_spec :
+  forall (key : list Z) (lst : bool) (items : list (list Z)) (d : Z),
+    items <> [] -> (forall it, In it items -> ~ In 59 it) ->
+    spec_info_cell (key, IString, lst) (intercalate [59] items) = Some (CBytes (found key (info_cells items d))).
+Proof. exact info_string_spec. Qed.
+Print Assumptions C02_info_string_spec.
+
 (* T3: header and comment lines at the top of the file never reach the parser: whatever the lines are (as long
    as each starts with the format's comment byte), reading resumes exactly at the first record. *)
 Theorem C02_skip_header_correct :
@@ -338,6 +377,16 @@ Example C02_nonvacuous_sam :
   run Fsam None (lay [10] [unhex "40484409564e3a312e36"%string] ++ body_of false rows) = Obs 2 (spec_cols Fsam None rows) true
   /\ nth 11 (spec_cols Fsam None rows) ColErr = Col [CBytes []; CBytes (unhex "4e4d3a693a300958583a5a3a61"%string)]
   /\ nth 8 (spec_cols Fsam None rows) ColErr = Col [CInt (-7); CInt 0].
+Proof. vm_compute. repeat split; reflexivity. Qed.
+(* INFO rows "DPX=7;DP=5;XDP=1" / "." / "XDP=3;DP=12" and key DP: keys that extend DP on either side do not match *)
+Example C02_nonvacuous_info :
+  let crows := [info_cells [unhex "4450583d37"; unhex "44503d35"; unhex "5844503d31"] 9; info_cells [unhex "2e"] 9;
+                info_cells [unhex "5844503d33"; unhex "44503d3132"] 10]%string in
+  let key := unhex "4450"%string in
+  forallb (fun c => len (filter (has_prefix key) (map fst c)) <=? 1) crows = true
+  /\ info_texts false (List.concat (map flatten crows)) key (item_table 0 (map flatten crows))
+      = Some [unhex "35"; []; unhex "3132"]%string
+  /\ map (found key) crows = [unhex "35"; []; unhex "3132"]%string.
 Proof. vm_compute. repeat split; reflexivity. Qed.
 (* a whole BED6 file through the whole model *)
 Example C02_nonvacuous_run :
